@@ -44,8 +44,8 @@ S={
 'C20-13':('NewGenerator raises minValue to 0 when the range straddles zero','negative lower bound with non-negative upper bound'),
 'C20-14':('valueRange computed through float64','max-min above 2^53 and not representable, scan offset carried to the last slot'),
 }
-FIRST=[]
-H={}
+FIRST=['C13-13', 'C09-13', 'C17-13', 'C17-14', 'C05-13', 'C05-14', 'C06-13', 'C06-14', 'C07-13', 'C15-13', 'C12-13', 'C12-14', 'C10-13', 'C03-13', 'C14-13', 'C14-14', 'C04-13', 'C01-13', 'C01-14', 'C02-13', 'C08-13', 'C11-13']
+H={'C02-14': 'missed at first (built messages were in decoder normal form). Every round-trip case with an empty element is also encoded with nil contents; both forms must give the same bytes', 'C03-14': 'missed at first (fresh Message per case, octet 2 nibble always 0). A quarter of the fixed-point cases use a Message in which the caller recorded a security header; half of those 5GMM inputs carry a nibble of their own', 'C04-14': 'missed at first (the input copy was never touched after the decode). The receive buffer is overwritten as soon as the decoder has returned, before the fields are compared', 'C07-14': 'missed at first (C07 made MAC calls only). mixed-series: ciphering and integrity calls of all six algorithms with one key and one (COUNT, BEARER, DIRECTION), short lengths, each compared with the reference', 'C08-14': 'missed at first (all payloads started at aligned addresses). The laws oracle repeats the ciphering at offsets 1..7 of a larger array (and the MAC at two of them): same octets, same result', 'C09-14': 'missed at first. The slice a byte-string getter returned is held across the getter calls on the following states of the element; ownedTwice now also watches the first result after the second call', 'C10-14': 'missed at first (the concurrent decode probe used valid inputs only). Every worker also decodes up to eight rejected variants of its input (one octet off by one), before the workers start and every 16th time round', 'C11-14': 'missed at first (no two goroutines shared a Count). concurrent-readers: eight goroutines read SQN/Overflow of one quiescent Count; the store is reported by the race side run (data-race: Get <-> maskTo24Bits)', 'C13-14': 'missed at first (only the named members of the input structure were set). fillUnmodelled gives the members the reference does not use (MaxNumOfTAs, MaxNumOfTAsForNotAllowedAreas, AreaCode) non-zero values in half of the cases', 'C15-14': 'missed at first (appendProbe looked at byte strings only). appendProbeLists appends one element to every non-byte slice with spare capacity inside the parsed value; nothing else may change', 'C16-13': 'missed at first (helpers were only called on fresh objects). The helpers are also called on an object that first parsed a request list (mostly empty units with the helper identifiers)', 'C16-14': 'missed at first. ... and on a recycled object whose list was cut back to length 0 after an earlier parse', 'C18-13': 'missed at first (the concurrent workload had no reject path). Kind uepolicy-result in C19 and in the cold units of C18; reported as result mismatch and as data race', 'C18-14': 'missed at first (setters were only called on fresh elements). SetPlmnDigit is also called on elements that hold another PLMN, or the same integers next to the three-digit coding a decoder leaves', 'C19-13': 'missed at first (the concurrent workload used well-formed arguments). Kind bad-input: malformed PLMNs, texts, octet strings, parameters and truncated messages, each goroutine its own', 'C19-14': 'missed at first (IMEI/IMEISV were not among the shared inputs). Two PEI wires in the shared-parse kind, also read through an element that holds the shared octets', 'C20-13': 'missed at first (all lower bounds were non-negative). Negative lower bounds and ranges straddling zero', 'C20-14': 'missed at first (widest range 2^40+3). Widths 2^53+1 .. 2^62+3 with windows at the top of the range; this workload also exposed genuine defect 21 (negative start)'}
 if __name__=='__main__':
     for k,(what,needs) in S.items():
         d='/verif/seeded/'+k
